@@ -364,4 +364,9 @@ func runC04(t *Trace, r *Rng, tier string, _ []string) {
 		}
 	}
 	t.Set("observations", totalObs)
+	scen := 30
+	if tier == "thorough" {
+		scen = 300
+	}
+	c04Scripted(t, r, tmpRoot, scen)
 }
